@@ -245,7 +245,8 @@ func runRPC(c RPCCase, o *vt.Obs) *vt.Failure {
 		cancel()
 		for ci, ch := range chunks {
 			if ci > 0 && len(ch.Kvs) == 0 && !want.CountOnly {
-				return vt.Failf(prop+"/empty-chunk", i, "KV.IterateRange %s: message %d of %d is empty", tlog.FmtRange(req), ci, len(chunks))
+				// legal ("split into consecutive messages"): where a stream is cut, and whether a message may be empty, is the server's business
+				o.Label("rpc-stream-with-an-empty-message")
 			}
 		}
 		merged, merr := tlog.MergeChunks(chunks)
@@ -262,8 +263,10 @@ func runRPC(c RPCCase, o *vt.Obs) *vt.Failure {
 			}
 			return vt.Failf(prop+sig, i, "KV.IterateRange %s lin=%v (%d messages, writes mid-stream=%v): %v", tlog.FmtRange(req), lin, len(chunks), wrote, cerr)
 		}
-		if !want.Single && !wrote && (len(chunks[0].Kvs) != len(got.Kvs) || chunks[0].More != got.More) {
-			return vt.Failf(prop+"/unary-vs-stream", i, "KV.Range %s: unary page has %d pairs more=%v, first streamed message %d pairs more=%v", tlog.FmtRange(req), len(got.Kvs), got.More, len(chunks[0].Kvs), chunks[0].More)
+		// (An earlier version demanded "first streamed message == unary answer".  That is how the pinned tree happens to cut, not what C09
+		// states - a server that streams in smaller messages than it pages is as good: false alarm 15 in DESIGN section 6.)
+		if !want.Single && !wrote && len(chunks[0].Kvs) != len(got.Kvs) {
+			o.Label("rpc-stream-cut-differently-from-the-unary-page")
 		}
 		if len(chunks) > 1 {
 			nt = true
